@@ -95,7 +95,10 @@ def int_forms(rnd, n):
 def run(res, tier, seed, broken_model):
     rnd = random.Random(seed)
     n = 600 if tier == "quick" else 20000
-    vals = [gen_value(rnd, 4) for _ in range(n)] + [("s", c + d) for c in CHARS for d in ("", "1", "a")]
+    vals = [gen_value(rnd, 4) for _ in range(n)] + [("s", c + d) for c in CHARS for d in ("", "1", "a")] + \
+        [("s", c + d) for c in CHARS for d in CHARS] + \
+        [("s", "\\" + c + d) for c in ('\\', '0', 'u', 'x', 'n', '"', '\x00') for d in ('0', '{', '7', '\\', 'a')] + \
+        [("array", [("s", "\\0")]), ("tuple", [("s", "a\\0b"), ("i", 0)])]
     lines = ["value\trt\t" + esc_field(lit_src(v)) for v in vals]
     out = harness_run(lines)
     mreq, mmeta = [], []
@@ -174,6 +177,6 @@ def run(res, tier, seed, broken_model):
     res.samples.append(dict(program=lit_src(vals[0])[:300], impl=out[0][:300] if out else ""))
     res.rule = ("nested values to depth 4 from bool, boundary / random ints incl. MIN and MAX, floats (-0.0, subnormal, 1e308, the 1e16/1e15 "
                 "switch-over), strings over quotes, backslashes, all classes of C0 controls, DEL, escape-like letters, non-ASCII letters and a "
-                "non-BMP character, (), arrays, tuples; every single character followed by a digit / letter; both routes (Variable::from_str "
+                "non-BMP character, (), arrays, tuples; every single character followed by a digit / letter, every ordered pair of the character classes, backslash-led triples; both routes (Variable::from_str "
                 "and Code::parse + exec; MIN_INT exempt on the second); integer literals in the four radixes with underscores around 2^63 and "
                 "2^64 vs. their mathematical value; non-trivial = distinct value / literal")
